@@ -315,7 +315,7 @@ func c02Units(tier string) [][3]int {
 	for hi := range c02Histories(tier) {
 		parts := 1
 		if hi < 4 {
-			parts = 4
+			parts = 1
 		}
 		for p := 0; p < parts; p++ {
 			u = append(u, [3]int{hi, p, parts})
@@ -358,7 +358,13 @@ func runC02(c *xs.Ctx, r *xs.Result) {
 			break
 		}
 		t0 := time.Now()
-		exploreSchedules(c, r, hist, b)
+		hb := b
+		if hi < 4 && !c.Thorough() {
+			// the long scripted histories (6-7 momentums, a dozen gossipable blocks) get a smaller schedule space in the
+			// quick tier: batches of at most 2, one gossiped block, one restart, one warm-up, no re-delivery
+			hb = c02bounds{maxBatch: 2, gossipWin: 1, maxWarm: 1, maxRestart: 1, maxGossip: 1, maxRedeliv: 0}
+		}
+		exploreSchedules(c, r, hist, hb)
 		r.Count("histories", 1)
 		if d := time.Since(t0); d > 20*time.Second {
 			r.Note("history %d took %.0fs", hi, d.Seconds())
@@ -398,6 +404,7 @@ func exploreSchedules(c *xs.Ctx, r *xs.Result, hist []ops.Op, b c02bounds) {
 	r.Count("gossipable_blocks", int64(ngossip))
 
 	seen := map[string]bool{}
+	l2 := 0
 	type item struct{ acts []fAct }
 	frontier := []item{{nil}}
 	k0, _, _ := followerRun(c, r, rec, hist, nil, true)
@@ -450,14 +457,22 @@ func exploreSchedules(c *xs.Ctx, r *xs.Result, hist []ops.Op, b c02bounds) {
 				succ = append(succ, fAct{K: "Q", I: 2})
 			}
 		}
-		for si, a := range succ {
-			if len(it.acts) == 0 && si%parts != part {
-				continue // another worker's level-1 subtree
+		for _, a := range succ {
+			// levels 1 and 2 are explored identically by every part of a split history (counted by part 0 only); the
+			// level-2 successors are then dealt round-robin to the parts
+			if len(it.acts) == 1 && parts > 1 {
+				l2++
+				if l2%parts != part {
+					continue // another worker's level-2 subtree
+				}
 			}
 			acts := append(append([]fAct{}, it.acts...), a)
+			counting := !(len(it.acts) == 0 && part != 0) // level-1 work is repeated by every part; part 0 counts it
 			key, nn, viol := followerRun(c, r, rec, hist, acts, false)
-			r.Count("transitions", 1)
-			if a.K == "G" {
+			if counting {
+				r.Count("transitions", 1)
+			}
+			if a.K == "G" && counting {
 				r.Count("gossip_transitions", 1)
 				blk := rec.Gossip[a.H][a.I]
 				if blk.MomentumAcknowledged.Height < n {
@@ -470,7 +485,9 @@ func exploreSchedules(c *xs.Ctx, r *xs.Result, hist []ops.Op, b c02bounds) {
 			_ = nn
 			if !seen[key] {
 				seen[key] = true
-				r.Count("states", 1)
+				if counting {
+					r.Count("states", 1)
+				}
 				frontier = append(frontier, item{acts})
 				if nn == rec.H {
 					r.Count("complete_schedules", 1)
